@@ -99,19 +99,34 @@ fn item(ctx: &Ctx, i: usize, rep: &mut Report) {
         if !heap.is_empty() || heap.iter().count() != 0 || heap.k() != k {
             return Some(("C10/fresh-state".into(), "fresh heap not empty".into()));
         }
+        let mut in_heap_until = 0usize;
         for (idx, x) in stream.iter().enumerate() {
             if clone_at == Some(idx) {
                 // continue on a clone: a copy must carry everything later answers depend on
                 heap = heap.clone();
             }
-            if via_extend && idx % 7 == 3 {
-                heap.extend(std::iter::once(*x).filter(|_| true)); // Extend is a loop of add()
+            if idx < in_heap_until {
+                // already delivered to the heap as part of an extend() batch
+            } else if via_extend && idx % 7 == 3 {
+                // Extend is a loop of add(): batches of 1..9 stream elements (adjacent repeats of
+                // tracked elements included), with and without an exact size hint
+                let len = (1 + (x.wrapping_mul(0x9E37) >> 3) % 9) as usize;
+                let end = (idx + len).min(n);
+                if idx % 2 == 1 {
+                    heap.extend(stream[idx..end].iter().copied().filter(|_| true));
+                } else {
+                    heap.extend(stream[idx..end].iter().copied());
+                }
+                in_heap_until = end;
             } else {
                 heap.add(*x);
             }
             shadow.add(x);
             *truth.entry(*x).or_insert(0) += 1;
             let cnt = idx + 1;
+            if cnt < in_heap_until {
+                continue; // the heap is ahead of the oracle until the batch is accounted for
+            }
             if heap.is_empty() {
                 return Some(("C10/is_empty".into(), format!("is_empty() after {} adds", cnt)));
             }
